@@ -1069,18 +1069,27 @@ class RRSLRecord:
 
         self._initialized = True
 
-    def add_component(self, symlink_comp):
-        # type: (bytes) -> None
+    def add_component(self, symlink_comp, literal=False):
+        # type: (bytes, bool) -> None
         """
         Add a new component to this symlink record.
 
         Parameters:
          symlink_comp - The string to add to this symlink record.
+         literal - Whether the string is (a piece of) an ordinary name even if
+                   it reads '.', '..' or '/'.
         Returns:
          Nothing.
         """
         if not self._initialized:
             raise pycdlibexception.PyCdlibInternalError('SL record not initialized')
+
+        if literal:
+            if (self.current_length() + 2 + len(symlink_comp)) > 255:
+                raise pycdlibexception.PyCdlibInvalidInput('Symlink would be longer than 255')
+
+            self.symlink_components.append(self.Component(0, len(symlink_comp), symlink_comp))
+            return
 
         if (self.current_length() + RRSLRecord.Component.length(symlink_comp)) > 255:
             raise pycdlibexception.PyCdlibInvalidInput('Symlink would be longer than 255')
@@ -1100,11 +1109,14 @@ class RRSLRecord:
         if not self._initialized:
             raise pycdlibexception.PyCdlibInternalError('SL record not initialized')
 
-        strlist = []
+        # Count what each component takes up when it is recorded; a piece
+        # of an ordinary name that reads '.' or '..' takes its bytes, unlike
+        # the special components of those names.
+        length = RRSLRecord.header_length()
         for comp in self.symlink_components:
-            strlist.append(comp.name())
+            length += 2 + comp.curr_length
 
-        return RRSLRecord.length(strlist)
+        return length
 
     def record(self):
         # type: () -> bytes
@@ -2842,13 +2854,19 @@ class RockRidge:
                         length = complen
                     compslice = comp[offset:offset + length]
 
-                curr_sl.add_component(compslice)
+                # A piece of an ordinary name can happen to read '.' or '..';
+                # it is still a piece of that name, recorded with its bytes.
+                curr_sl.add_component(compslice, not special)
+                if special:
+                    piece_len = RRSLRecord.Component.length(compslice)
+                else:
+                    piece_len = 2 + len(compslice)
 
                 if sl_in_dr:
-                    curr_dr_len += RRSLRecord.Component.length(compslice)
+                    curr_dr_len += piece_len
                 else:
                     if self.dr_entries.ce_record is not None:
-                        self.dr_entries.ce_record.add_record(RRSLRecord.Component.length(compslice))
+                        self.dr_entries.ce_record.add_record(piece_len)
 
                 offset += length
 
